@@ -184,6 +184,7 @@ fn stacks_env(s: &str, x: u64) -> Vec<(&'static str, Dispatch, RecLayer)> {
     let r6 = RecLayer::default();
     let r7 = RecLayer::default();
     let r8 = RecLayer::default();
+    let r9 = RecLayer::default();
     type DynF = dyn tracing_subscriber::subscribe::Filter<tracing_subscriber::Registry> + Send + Sync;
     vec![
         // the per-layer filter type-erased: Box<dyn Filter> / Arc<dyn Filter> must forward every callback
@@ -193,6 +194,9 @@ fn stacks_env(s: &str, x: u64) -> Vec<(&'static str, Dispatch, RecLayer)> {
         ("E-new", Dispatch::new(tracing_subscriber::registry().with(EnvFilter::new(s)).with(r6.clone())), r6),
         ("E-global", Dispatch::new(tracing_subscriber::registry().with(env(s).unwrap()).with(r1.clone())), r1),
         ("E-plf", Dispatch::new(tracing_subscriber::registry().with(r2.clone().with_filter(env(s).unwrap()))), r2),
+        // ... next to an unfiltered layer: the process-wide maximum level is TRACE, so the filter is asked about everything and
+        // what it lets through is compared with the hint it publishes
+        ("E-pair", Dispatch::new(tracing_subscriber::registry().with(r9.clone().with_filter(env(s).unwrap())).with(RecLayer::default())), r9),
         // the EnvFilter as an operand of the FilterExt combinators, next to a LevelFilter of rank x
         ("E-or1", Dispatch::new(tracing_subscriber::registry().with(r3.clone().with_filter(lf(x).or(env(s).unwrap())))), r3),
         ("E-or2", Dispatch::new(tracing_subscriber::registry().with(r4.clone().with_filter(env(s).unwrap().or(lf(x))))), r4),
@@ -218,6 +222,7 @@ fn main() {
             let e = env(&s);
             let mut case = json!({"ev": "case", "i": i, "s": s, "dirs": c["dirs"], "tv": c["tv"], "odd": c["odd"].as_bool().unwrap_or(false), "script": script, "t_ok": t.is_ok(), "e_ok": e.is_ok()});
             let mut runs: Vec<(String, Dispatch, RecLayer)> = vec![];
+            let mut e_hint = 9u64;
             if let Ok(t) = &t {
                 let mut would = vec![];
                 for lvl in 1..=5u64 {
@@ -247,7 +252,8 @@ fn main() {
             if let Ok(e) = &e {
                 let disp = e.to_string();
                 case["e_disp"] = json!(disp);
-                case["e_hint"] = json!(vh_common::fbuild::hint_rank(e.max_level_hint()));
+                e_hint = vh_common::fbuild::hint_rank(e.max_level_hint());
+                case["e_hint"] = json!(e_hint);
                 match env(&disp) {
                     Ok(e2) => {
                         case["e_rt"] = json!("ok");
@@ -265,6 +271,7 @@ fn main() {
             for (n, d, r) in runs {
                 let replies = run_script(&d, &r, &script);
                 lines.push(json!({"ev": "start", "i": i, "cfg": n, "kind": if n.starts_with('T') { "targets" } else { "env" }, "dirs": c["dirs"], "tv": c["tv"],
+                    "hint": if n == "E-pair" { e_hint } else { 9 },
                     "wrap": if n == "E-or1" || n == "E-or2" { "or" } else if n == "E-and" { "and" } else { "" }, "x": c["x"].as_u64().unwrap_or(3)}));
                 for (op, reply) in script.iter().zip(replies) {
                     let mut o = op.clone();
